@@ -182,11 +182,21 @@ RECURSIVE CommaSep(_)
 CommaSep(ss) == IF ss = <<>> THEN ""
                 ELSE IF Len(ss) = 1 THEN ss[1]
                 ELSE Head(ss) \o ", " \o CommaSep(Tail(ss))
+(* the elements of the list as WRITTEN, following its bound tail variables (the    *)
+(* elements themselves are not looked into)                                         *)
+RECURSIVE SpineF(_, _, _)
+SpineF(t, b, fuel) ==
+    LET w == Walk(t, b) IN
+    IF w.k # "list" \/ fuel = 0 THEN [ok |-> FALSE, els |-> <<>>]
+    ELSE IF w.t = <<>> THEN [ok |-> TRUE, els |-> w.a]
+    ELSE LET r == SpineF(w.t[1], b, fuel - 1) IN [ok |-> r.ok, els |-> w.a \o r.els]
+Spine(t, b) == SpineF(t, b, Len(b) + 2)
 PrintListSem(args, b) ==
     IF Len(args) # 1 THEN R("out", b, "")
-    ELSE LET r == Resolve(args[1], b) IN
-         IF ~ProperList(r) \/ \E i \in DOMAIN r.a : ~Printable(r.a[i], b) THEN R("out", b, "")
-         ELSE R("ok", b, CommaSep(TextsOf(r.a, b)) \o "\n")
+    ELSE LET sp == Spine(args[1], b) IN
+         (* each element, or the value its variable chain ends in, must be ground as written *)
+         IF ~sp.ok \/ \E i \in DOMAIN sp.els : ~Printable(sp.els[i], b) THEN R("out", b, "")
+         ELSE R("ok", b, CommaSep(TextsOf(sp.els, b)) \o "\n")
 
 (* ---------------- dispatch ---------------- *)
 BipSem(f, args, b) ==
